@@ -95,7 +95,7 @@ func (g *Gen) instr(in ssa.Instruction, st *State, reach string) bool {
 			g.define(in, "(select "+x.S+" "+i.S+")")
 		case *types.Basic:
 			g.uses["str"] = true
-			g.seeIndex(i.S)
+			g.seeIndex(i.S, "str")
 			g.safeObl("safe-idx", fmt.Sprintf("(and (<= 0 %s) (< %s (str.len %s)))", i.S, i.S, x.S), reach, in.Pos(), "string index in range")
 			g.define(in, "(str.to_code (str.at "+x.S+" "+i.S+"))")
 		default:
@@ -166,7 +166,12 @@ func (g *Gen) instr(in ssa.Instruction, st *State, reach string) bool {
 		if v, ok := in.(ssa.Value); ok {
 			g.defineHavoc(v, "channel")
 		}
-		g.havocAll(st, "channel op")
+		if g.con.Opts["channels"] == "quiet" {
+			// sequential reading: a channel operation transfers a value and changes no modelled heap
+			g.trusted["channel operations change no modelled state (no other goroutine runs in between); opt: channels=quiet"] = true
+		} else {
+			g.havocAll(st, "channel op")
+		}
 	case *ssa.SliceToArrayPointer:
 		g.fail(in.Pos(), "slice to array pointer unsupported")
 	default:
@@ -274,7 +279,11 @@ func (g *Gen) unop(in *ssa.UnOp, st *State, reach string) {
 			g.fail(in.Pos(), "channel receive in P-level function")
 		}
 		g.defineHavoc(in, "channel receive")
-		g.havocAll(st, "chan recv")
+		if g.con.Opts["channels"] == "quiet" {
+			g.trusted["channel operations change no modelled state (no other goroutine runs in between); opt: channels=quiet"] = true
+		} else {
+			g.havocAll(st, "chan recv")
+		}
 	default:
 		g.fail(in.Pos(), "unsupported unary op %s", in.Op)
 	}
@@ -539,13 +548,15 @@ func (g *Gen) phi(in *ssa.Phi, st *State) {
 func (g *Gen) indexAddr(in *ssa.IndexAddr, st *State, reach string) {
 	x := g.val(in.X, st)
 	i := g.val(in.Index, st)
-	g.seeIndex(i.S)
 	switch u := in.X.Type().Underlying().(type) {
 	case *types.Slice:
+		ek, _ := g.elemHeap(g.sortOf(u.Elem()))
+		g.seeIndex(i.S, ek)
 		g.safeObl("safe-idx", fmt.Sprintf("(and (<= 0 %s) (< %s (s-len %s)))", i.S, i.S, x.S), reach, in.Pos(), "slice index in range")
 		g.vals[in] = &SV{LV: &LVal{kind: lvElem, ref: "(s-ref " + x.S + ")", idx: "(+ (s-off " + x.S + ") " + i.S + ")", base: u.Elem()}, T: in.Type()}
 	case *types.Pointer:
 		at := u.Elem().Underlying().(*types.Array)
+		g.seeIndex(i.S, "")
 		g.safeObl("safe-idx", fmt.Sprintf("(and (<= 0 %s) (< %s %d))", i.S, i.S, at.Len()), reach, in.Pos(), "array index in range")
 		if x.LV != nil {
 			g.vals[in] = &SV{LV: x.LV.extend(pstep{isIndex: true, index: i.S, parent: u.Elem(), T: at.Elem()}), T: in.Type()}
@@ -564,7 +575,7 @@ func (g *Gen) lookup(in *ssa.Lookup, st *State, reach string) {
 	switch u := in.X.Type().Underlying().(type) {
 	case *types.Basic: // string
 		g.uses["str"] = true
-		g.seeIndex(k.S)
+		g.seeIndex(k.S, "str")
 		g.safeObl("safe-idx", fmt.Sprintf("(and (<= 0 %s) (< %s (str.len %s)))", k.S, k.S, x.S), reach, in.Pos(), "string index in range")
 		g.define(in, "(str.to_code (str.at "+x.S+" "+k.S+"))")
 	case *types.Map:
@@ -1001,6 +1012,8 @@ func (g *Gen) ret(in *ssa.Return, st *State, reach string) {
 	if !in.Pos().IsValid() {
 		line = 0
 	}
+	var ensures []*Clause
+	var ensIdx []int
 	for i, cl := range g.con.Ensures {
 		if !clauseActive(cl, g.fmode) {
 			continue
@@ -1009,6 +1022,13 @@ func (g *Gen) ret(in *ssa.Return, st *State, reach string) {
 			g.trusted["assumed postcondition of "+g.shortName()+": "+cl.Src] = true
 			continue
 		}
+		for _, pc := range g.partClauses(cl) {
+			ensures = append(ensures, pc)
+			ensIdx = append(ensIdx, i)
+		}
+	}
+	for k, cl := range ensures {
+		i := ensIdx[k]
 		s := g.mustEval(cl, env)
 		lab := cl.Label
 		if lab == "" {
